@@ -71,6 +71,12 @@ func c14Setup(in *Interp, self *types.Func) {
 		if sig.Results().Len() == 1 && isErrorType(sig.Results().At(0).Type()) && strings.HasPrefix(f.Name(), "err") {
 			return false
 		}
+		// small value helpers of the package (compactV4, ...) are interpreted: one non-error
+		// result, unexported, no receiver
+		if sig.Recv() == nil && !f.Exported() && sig.Results().Len() == 1 && !isErrorType(sig.Results().At(0).Type()) && f.Pkg() == self.Pkg() &&
+			!strings.HasPrefix(f.Name(), "write") && !strings.HasPrefix(f.Name(), "read") && !strings.HasPrefix(f.Name(), "convert") && !strings.HasPrefix(f.Name(), "reflect") {
+			return false
+		}
 		return true
 	}
 }
